@@ -176,11 +176,27 @@ class Ctx:
         out = os.path.join(BIN, pkg)
         if os.path.exists(out):
             os.remove(out)  # never run a stale binary
-        try:
-            shutil.copyfile(os.path.join(REPO, "go.sum"), os.path.join(HARNESS, "go.sum"))
-        except OSError:
-            pass
-        rc, log, dt = sh(["go", "build", "-tags", "verif", "-o", out, "./" + pkg], cwd=HARNESS,
+        extra = []
+        if os.path.realpath(REPO) == "/repo":
+            try:
+                shutil.copyfile(os.path.join(REPO, "go.sum"), os.path.join(HARNESS, "go.sum"))
+            except OSError:
+                pass
+        else:
+            # VERIF_REPO=<scratch worktree>: build against it through an alternate go.mod, so that
+            # mutation experiments never touch /repo (binary goes to a separate path as well)
+            out = os.path.join(BIN, pkg + ".alt-" + hashlib.sha1(REPO.encode()).hexdigest()[:8])
+            if os.path.exists(out):
+                os.remove(out)
+            alt = os.path.join(self.work, "alt.go.mod")
+            with open(os.path.join(HARNESS, "go.mod")) as f:
+                txt = f.read().replace("=> /repo", "=> " + os.path.realpath(REPO))
+            with open(alt, "w") as f:
+                f.write(txt)
+            shutil.copyfile(os.path.join(REPO, "go.sum"), os.path.join(self.work, "alt.go.sum"))
+            extra = ["-modfile=" + alt]
+        self.bin_path = out
+        rc, log, dt = sh(["go", "build", "-tags", "verif"] + extra + ["-o", out, "./" + pkg], cwd=HARNESS,
                          env=go_env(), timeout=timeout)
         self.log("go build ./%s rc=%d (%.1fs)" % (pkg, rc, dt))
         if rc != 0:
@@ -198,7 +214,8 @@ class Ctx:
         env["VERIF_REPO"] = REPO
         if env_extra:
             env.update(env_extra)
-        rc, out, dt = sh([os.path.join(BIN, pkg or self.lc)] + [str(a) for a in args], cwd=self.work,
+        exe = getattr(self, "bin_path", None) if pkg is None else os.path.join(BIN, pkg)
+        rc, out, dt = sh([exe or os.path.join(BIN, self.lc)] + [str(a) for a in args], cwd=self.work,
                          env=env, timeout=timeout, stdin=stdin)
         return rc, out
 
@@ -520,6 +537,8 @@ class Ctx:
             "violations": len(self.violations),
         }
         path = os.path.join(EVIDENCE, self.pid + ".json")
+        if os.path.realpath(REPO) != "/repo":
+            path = os.path.join(self.work, "evidence.alt.json")  # scratch-worktree runs are not evidence
         tmp = path + ".tmp"
         with open(tmp, "w") as f:
             json.dump(ev, f, indent=1, sort_keys=True)
